@@ -1,10 +1,10 @@
 //! Family "rsbig": rank/select structures over bit vectors longer than 2^32
 //! bits (C01/C02 beyond the reach of the "ranksel" family, whose positions are
-//! plain TLC integers). The vector is given by its length and the positions of
-//! its (few) ones, all as base-2^15 limb lists; positions in queries and
+//! plain TLC integers). The vector is given by its length and a few runs of ones
+//! [s, e), all as base-2^15 limb lists; positions in queries and
 //! answers are limb lists too (spec/RankSelBig.tla, Wide.tla).
 //!
-//! Episode: {"len": limbs, "ones": [limbs...], "key": stack key of fam_ranksel,
+//! Episode: {"len": limbs, "runs": [[limbs, limbs]...], "key": stack key of fam_ranksel,
 //! "layers": [...], "ops": [{"op": "rank", "p": limbs}, {"op": "select", "r": n}, ...]}
 //! The stack is built with fam_ranksel::build, so every stack of that family
 //! can be used. The 512 MiB backend is allocated lazily by the OS.
@@ -32,12 +32,12 @@ fn ol(x: Option<usize>) -> Value {
 
 pub fn run(ep: &Value, ctx: &mut Ctx) {
     let hdr = json!({"op": "BEGIN", "fam": "rsbig", "src": ep.get("src").cloned().unwrap_or(json!("?")),
-                     "len": ep["len"].clone(), "ones": ep["ones"].clone(),
+                     "len": ep["len"].clone(), "runs": ep["runs"].clone(),
                      "key": ep["key"].clone(), "layers": ep.get("layers").cloned().unwrap_or(json!([]))});
     ctx.begin(&hdr);
     ctx.emit(&hdr, "ret", json!({}));
     let len = w(&ep["len"]);
-    let ones: Vec<usize> = ep["ones"].as_array().unwrap().iter().map(w).collect();
+    let runs: Vec<(usize, usize)> = ep["runs"].as_array().unwrap().iter().map(|r| (w(&r[0]), w(&r[1]))).collect();
     let key = ep["key"].as_str().unwrap().to_string();
     let layers: Vec<Value> = ep.get("layers").and_then(|v| v.as_array()).cloned().unwrap_or_default();
     let mut st: Option<Box<dyn Dyn>> = None;
@@ -48,8 +48,18 @@ pub fn run(ep: &Value, ctx: &mut Ctx) {
             // the first op of every episode: a constructor that dies is attributed to it
             match guard(|| {
                 let mut bv = BitVec::new(len);
-                for &p in &ones {
-                    bv.set(p, true);
+                {
+                    // runs of ones [s, e), word by word (a run can be billions of bits long)
+                    let words: &mut [usize] = bv.as_mut();
+                    for &(s, e) in &runs {
+                        let mut p = s;
+                        while p < e {
+                            let (wi, b) = (p / 64, p % 64);
+                            let n = (64 - b).min(e - p);
+                            words[wi] |= if n == 64 { usize::MAX } else { ((1usize << n) - 1) << b };
+                            p += n;
+                        }
+                    }
                 }
                 build(&key, &layers, bv)
             }) {
